@@ -3,6 +3,7 @@
 -/
 import ConnectModel.Envelope
 import ConnectProofs.Lemmas.Envelope
+import ConnectProofs.C01
 
 namespace ConnectModel.C09
 open ConnectModel
@@ -194,9 +195,21 @@ theorem no_oversize_delivery {Val : Type} (cfg : ReaderCfg Val) (hmax : 0 < cfg.
             intro v h; simp at h; subst h
             exact ⟨data, hu, hd⟩
 
-/-- every message of at most `N` bytes is accepted: see `C01.unmarshal_marshal` (its `Fits`
-    hypothesis is exactly "wire and decoded size ≤ N"). -/
-theorem within_limit_accepted_ref : True := trivial
+/-- **within_limit_accepted**: the other half of "exactly" - with a limit `N ≥ 1`, a message whose
+    encoded size and whose size on the wire (after the writer's compression decision) are both
+    at most `N` is delivered intact, at every position of a stream (arbitrary bytes `rest` may
+    follow; by `C03` under every segmentation). Corollary of `C01.unmarshal_marshal`. -/
+theorem within_limit_accepted {Val : Type} (w : WriterCfg Val) (rcfg : ReaderCfg Val) (zero : Val)
+    (hcodec : rcfg.codec = w.codec) (hpool : rcfg.pool = w.pool)
+    (hc : C01.CodecLaws w.codec zero) (hz : ∀ c, w.pool = some c → C01.CompLaws c)
+    (v : Val) (rest : Bytes) (tail : RErr)
+    (hwire : (C01.wirePayload w v).length ≤ rcfg.max) (hplain : (w.codec.marshal v).length ≤ rcfg.max)
+    (h32 : rcfg.max < 2 ^ 32) :
+    ∃ y buffered, (envUnmarshal rcfg).run takeExact { flat := envMarshal w v ++ rest, tail := tail } =
+        ({ outcome := .msg y, buffered := buffered }, { flat := rest, tail := tail }) ∧
+      C01.yieldValue zero (.msg y) = some v :=
+  C01.unmarshal_marshal w rcfg zero hcodec hpool hc hz v rest tail
+    ⟨by omega, Or.inr ⟨hwire, hplain⟩⟩
 
 /-! non-vacuity: N = 2; a 3-byte frame is rejected, a lying prefix allocates nothing -/
 example : ((envRead 2).run takeExact { flat := [0,0,0,0,3,1,2,3,9], tail := .eof }).1 =
